@@ -87,9 +87,13 @@ func setupQueryWorld(t *testing.T, sv *srv, bindings []binding, rows []qrow) {
 // seriesConstant rewrites the indexed tags so that they are attributes of the series (a function of the entity):
 // a measure's inverted index is kept per series, not per data point, so only such tags have a defined
 // meaning under it. Streams keep per-row values.
+// The constants of a series are fixed by the first row ever generated for it and kept for the whole run, so that
+// later waves of rows carry the same values (the index keeps one document per series).
+var seriesFirst = map[string]qrow{}
+
 func seriesConstant(rows []qrow) []qrow {
 	out := make([]qrow, len(rows))
-	first := map[string]qrow{}
+	first := seriesFirst
 	for i, q := range rows {
 		f, ok := first[q.id]
 		if !ok {
@@ -248,7 +252,7 @@ func TestVerifC08(t *testing.T) {
 					}
 					s.Violation(fmt.Sprintf("c08:%s:%s:%s", b.name, lname, opKey), map[string]any{"binding": b.name, "layout": lname, "criteria": tr.String(),
 						"window": lo.Format(time.RFC3339Nano) + ".." + hi.Format(time.RFC3339Nano), "expected": len(want), "returned": len(got), "missing_uids": missing, "unexpected_uids": extra,
-						"missing_rows": describeRows(rows, missing), "unexpected_rows": describeRows(rows, extra)})
+						"missing_rows": describeRows(rows, missing), "unexpected_rows": describeRows(rows, extra), "missing_by_series_and_day": breakdown(rows, missing, base), "unexpected_by_series_and_day": breakdown(rows, extra, base)})
 				}
 			}
 		}
@@ -274,9 +278,27 @@ func TestVerifC08(t *testing.T) {
 	s.Done()
 }
 
+// breakdown counts the given rows per series and day (helps to tell a per-segment effect from a per-row one).
+func breakdown(rows []qrow, ids []int64, base time.Time) map[string]int {
+	set := map[int64]bool{}
+	for _, id := range ids {
+		set[id] = true
+	}
+	out := map[string]int{}
+	for _, q := range rows {
+		if set[q.uid] {
+			out[fmt.Sprintf("%s/day%d", q.id, int(q.ts.Sub(base).Hours())/24)]++
+		}
+	}
+	return out
+}
+
 func describeRows(rows []qrow, ids []int64) []string {
 	var out []string
 	for _, id := range ids {
+		if len(out) >= 6 {
+			break
+		}
 		for _, q := range rows {
 			if q.uid == id {
 				out = append(out, fmt.Sprintf("uid=%d id=%s svc=%q(null=%v) n=%d(null=%v) dur=%d labels=%q codes=%v", q.uid, q.id, q.svc, q.svcNil, q.n, q.nNil, q.dur, q.labels, q.codes))
